@@ -90,6 +90,8 @@ def sh(cmd, timeout=None, cwd=None, env=None):
 
 def build_coq(timeout=3000):
     """Full make of /verif/coq under a lock (several checks may start at once)."""
+    if os.environ.get("BARDIC_SKIP_BUILD") == "1":   # development only: files compiled by hand
+        return True, "skipped"
     lock = open(os.path.join(COQ, ".build.lock"), "w")
     fcntl.flock(lock, fcntl.LOCK_EX)
     try:
